@@ -3,7 +3,7 @@ import math
 from fractions import Fraction as Fr
 
 from . import ops_field  # noqa: F401  (registers ops)
-from .gen import Geo, draw_field_new, draw_mesh_spec, draw_n
+from .gen import Geo, draw_field_new, draw_mesh_spec, draw_n, draw_twin_spec
 from .geom import MeshM
 from .profiles_geom import HeapProfile
 
@@ -231,6 +231,10 @@ class ValuesProfile(FieldProfile):
         if len(st.h) >= cfg["pool"]:
             return {"op": "drop", "on": min(st.h)}
         meshes, fields = st.slots("M"), st.slots("F")
+        qv = st.extra.get("queueV")
+        if qv:
+            o = qv.pop(0)
+            return dict(o, out=out) if st.has(o["on"], "M") else {"op": "drop", "on": -1}
         if not meshes:
             return self.ensure_mesh(rng, st, cfg["max_cells"], cfg["max_subs"])
         r = rng.random()
@@ -242,6 +246,20 @@ class ValuesProfile(FieldProfile):
                     return dict(cm, op="Mesh.new", out=out)
             if rng.random() < 0.15:
                 return self.ensure_mesh(rng, st, cfg["max_cells"], cfg["max_subs"])
+            if rng.random() < 0.15 and len(meshes) < 4:
+                # a twin: same geometry with other subregions, or shifted by whole cells with the same ones
+                st.stats.probe("twin_mesh")
+                src = rng.choice(meshes)
+                tw = draw_twin_spec(rng, st.h[src].box.v)
+                names = sorted({n for n, _, _ in tw["subs"]} & {n for n, _ in st.h[src].box.v.subs})
+                if names:
+                    # the same per-subregion dictionary on the original and then on the twin
+                    d = {n: {"t": "const", "v": float(i + 1)} for i, n in enumerate(names)}
+                    d["default"] = {"t": "const", "v": 0.0}
+                    q = st.extra.setdefault("queueV", [])
+                    q += [{"op": "F.construct", "on": src, "nvdim": 1, "dtype": None, "spec": {"t": "dict", "d": d}, "vdims": None, "unit": None},
+                          {"op": "F.construct", "on": out, "nvdim": 1, "dtype": None, "spec": {"t": "dict", "d": d}, "vdims": None, "unit": None}]
+                return dict(tw, op="Mesh.new", out=out)
             ms = rng.choice(meshes)
             mm = st.h[ms].box.v
             nvdim = rng.choice([1, 1, 2, 3, 3, 4])
